@@ -170,9 +170,14 @@ VMaskCases == {[kind |-> "vmask", mesh |-> m, cls |-> c, mask |-> vm] : <<m, c, 
 TMaskCases == {[kind |-> "tmask", mesh |-> m, cls |-> c, mask |-> tm] : <<m, c, tm>> \in
                  {<<m, c, tm>> \in (DOMAIN MeshPool) \X MeshClasses \X (UNION {[1..n -> BOOLEAN] : n \in 2..8}) :
                     Len(tm) = Len(MeshPool[m].tris) /\ \E i \in 1..Len(tm) : tm[i]}}
+\* masks that keep NO whole triangle (at most two vertices, or none): whether such a request is refused or answered with an empty
+\* mesh is not specified - only that the receiver is what it was afterwards
+VMaskNoneCases == {[kind |-> "vmask_none", mesh |-> m, cls |-> c, mask |-> vm] : <<m, c, vm>> \in
+                 {<<m, c, vm>> \in (DOMAIN MeshPool) \X MeshClasses \X (UNION {[1..n -> BOOLEAN] : n \in 4..9}) :
+                    Len(vm) = Len(MeshPool[m].pts) /\ Cardinality({i \in 1..Len(vm) : vm[i]}) <= 2 /\ KeptTris(MeshPool[m], vm) = <<>>}}
 GeomCases == {[kind |-> "geom", mesh |-> m] : m \in DOMAIN MeshPool}
 Cases == (IF "apply" \in Kinds THEN ApplyCases ELSE {}) \cup (IF "vec" \in Kinds THEN VecCases ELSE {})
-         \cup (IF "vmask" \in Kinds THEN VMaskCases ELSE {}) \cup (IF "tmask" \in Kinds THEN TMaskCases ELSE {})
+         \cup (IF "vmask" \in Kinds THEN VMaskCases \cup VMaskNoneCases ELSE {}) \cup (IF "tmask" \in Kinds THEN TMaskCases ELSE {})
          \cup (IF "geom" \in Kinds THEN GeomCases ELSE {})
 Out(c) ==
   CASE c.kind = "apply" -> LET s == ShapeOf(c.cls, c.d, c.lmcfg) IN [case |-> c, shape |-> s, result |-> MapShape(c.t, s)]
@@ -180,6 +185,7 @@ Out(c) ==
                          [case |-> c, shape |-> s, vec |-> Flat(s.pts), other |-> OtherVec(c.d),
                           result |-> [s EXCEPT !.pts = Unflat(OtherVec(c.d), c.d)]]
     \* rgeom: the geometry queries of the masked mesh are those of its own points and triangles (asked after the parent's)
+    [] c.kind = "vmask_none" -> [case |-> c, m |-> MeshPool[c.mesh]]
     [] c.kind = "vmask" -> [case |-> c, m |-> MeshPool[c.mesh], res |-> MaskResult(MeshPool[c.mesh], c.mask), rgeom |-> MeshGeom(MaskResult(MeshPool[c.mesh], c.mask))]
     [] c.kind = "tmask" -> [case |-> c, m |-> MeshPool[c.mesh], res |-> TriMaskResult(MeshPool[c.mesh], c.mask), rgeom |-> MeshGeom(TriMaskResult(MeshPool[c.mesh], c.mask))]
     [] c.kind = "geom" -> [case |-> c, m |-> MeshPool[c.mesh], geom |-> MeshGeom(MeshPool[c.mesh])]
